@@ -47,7 +47,7 @@ func runC11Cmd(c c11Cmd) error {
 	}
 	out := filepath.Join(dir, "report.json")
 	var rerr error
-	if perr := vh.Try(func() { rerr = report([]string{in}, "json", out, 0, "") }); perr != nil || rerr != nil {
+	if perr := vh.Try(func() { rerr = runReport([]string{in}, "json", out, 0, "") }); perr != nil || rerr != nil {
 		return fmt.Errorf("vegeta report -type=json on a %s file of %d records: %v %v", c.Codec, len(rs), perr, rerr)
 	}
 	b, err := os.ReadFile(out)
